@@ -391,7 +391,8 @@ def run(pid, tier, seed, replay=None):
             # multi-section documents: the clauses of this property that the statement extends to them
             import multisec
             mconsts = dict(MaxSec=3 if tier == "thorough" else 2, RowSet={0, 1, 3}, ColSet={1, 2, 3}, HdrSet={"explicit", "none"},
-                           FootSet={"none", "table", "para"} if tier == "thorough" else {"none", "table"}, BoolSet={False, True}, NrowSet={3, 40})
+                           FootSet={"none", "table", "para"} if tier == "thorough" else {"none", "table"}, BoolSet={False, True}, NrowSet={3, 40},
+                           BodySet={"own", "shared", "sharedw"})
             mgot = family.generate(ctx, work, "MultiSec", mconsts, "multisec")
             if pid == "C07":
                 # the border clauses speak about tables with rows: sections without rows are left to C01/C02
